@@ -403,7 +403,7 @@ _EMITS = {
 }
 SECONDARY = {"C01": _EMITS["Construct"], "C02": _EMITS["Insert"], "C04": _EMITS["Verdicts"], "C06": _EMITS["Remove"],
              "C07": _EMITS["Flip"], "C08": _EMITS["Repair"], "C09": _EMITS["InsertCopy"]}
-STAGE_FAMILIES = {"C02": ["inserttxn"], "C03": ["inserttxn", "removetxn", "fliptxn"], "C06": ["removetxn"], "C07": ["fliptxn"], "C09": ["caches"], "C11": ["caches", "fliptxn"],
+STAGE_FAMILIES = {"C02": ["inserttxn"], "C03": ["inserttxn", "removetxn", "fliptxn"], "C06": ["removetxn"], "C07": ["fliptxn"], "C09": ["caches"], "C11": ["caches", "fliptxn", "removetxn"],
                   "C18": ["measures"], "C08": ["repairtrace"]}
 SECONDARY_SHARE = 0.3
 THOROUGH_ROUNDS = 3   # the thorough tier drives every family with this many seeds (seed, seed + 101, ...)
@@ -621,7 +621,7 @@ PLANS = {
                 stages=[lambda c, v: stage_mc("MC_Caches.tla", ("MC_Caches_fixed.cfg" if c.tier == "thorough" else "MC_Caches_fixed_quick.cfg") if edit_invalidates() else "MC_Caches_pinned.cfg",
                                               expect_violation=None if edit_invalidates() else ["IndexComplete", "NoDuplicateAccepted"])(c, v),
                         stage_sim("MC_Caches.tla", "MC_Caches_sim.cfg", 20000, 60),
-                        stage_caches, stage_fliptxn],
+                        stage_caches],
                 rule="(i) exhaustive TLC check of the cache mechanism model (2 positions, 2 objects, depth 6), thorough tier: 80 000 random behaviours of depth 60 in TLC simulation mode; (ii) every "
                      "history TLC generates from that model up to the depth bound (plus a seeded sample one step beyond) "
                      "replayed on the real library with the spatial index observed through hooks after every call and "
@@ -645,7 +645,7 @@ PLANS = {
     "C11": dict(level="model_checking", families=[("queries", 14, 16)],
                 stages=[lambda c, v: stage_mc("MC_Caches.tla", ("MC_Caches_fixed.cfg" if c.tier == "thorough" else "MC_Caches_fixed_quick.cfg"))(c, v),
                         stage_sim("MC_Caches.tla", "MC_Caches_sim.cfg", 20000, 60),
-                        stage_caches],
+                        stage_caches, stage_fliptxn, stage_removetxn],
                 rule="(i) HullFresh checked exhaustively on the cache/generation model; (ii) TLC-generated histories with "
                      "HullCreate/HullQuery replayed and compared with the model; (iii) hull creation on corpus "
                      "triangulations checked against Boundary(K) and exact visibility for every query point, then one "
